@@ -236,6 +236,13 @@ def mutants(prog):
         ("sitk transposed direction", "deepali.data.image", "Image.sitk", "grid.direction().flatten().tolist()", "grid.direction().t().flatten().tolist()", "E7.header-wiring"),
         ("sitk origin=center", "deepali.data.image", "Image.sitk", "origin = grid.origin().tolist()", "origin = grid.center().tolist()", "E7.header-wiring"),
         ("SetSpacing(origin)", "deepali.utils.simpleitk.torch", "image_from_tensor", "image.SetSpacing(spacing)", "image.SetSpacing(origin)", "E7.header-wiring"),
+        ("from_numpy drops origin flag", G, "Grid.from_numpy", "return cls.from_seq(seq, origin=origin, align_corners=align_corners)", "return cls.from_seq(seq, align_corners=align_corners)", "T1.itk-seq"),
+        ("from_seq: flag inverted", G, "Grid.from_seq", "if origin:", "if not origin:", "T1.itk-seq"),
+        ("GridAttrs: result cast to index dtype", "deepali.utils.simpleitk.grid", "transform_point", "return y.reshape(arg.shape)", "return y.reshape(arg.shape).astype(arg.dtype)", "T1.itk-attrs"),
+        ("GridAttrs: scaling before rotation", "deepali.utils.simpleitk.grid", "GridAttrs.transform", "homogeneous_matrix(rotation @ scaling)", "homogeneous_matrix(scaling @ rotation)", "T1.itk-attrs"),
+        ("GridAttrs: inverse without transpose", "deepali.utils.simpleitk.grid", "GridAttrs.inverse_transform", "rotation = self.dcm.T", "rotation = self.dcm", "T1.itk-attrs"),
+        ("GridAttrs: header cross-wired", "deepali.utils.simpleitk.grid", "image_grid_attributes", "origin=image.GetOrigin(), spacing=image.GetSpacing()", "origin=image.GetSpacing(), spacing=image.GetOrigin()", "T1.itk-attrs"),
+        ("GridAttrs: center route sign", "deepali.utils.simpleitk.grid", "GridAttrs.__init__", "np.asanyarray(center) - np.matmul(rotation @ scaling, offset)", "np.asanyarray(center) + np.matmul(rotation @ scaling, offset)", "T1.itk-attrs"),
     ]
     for name, mod, fn, old, new, expect in specs:
         ov = source_sub(prog, mod, fn, old, new)
